@@ -82,13 +82,13 @@ NumClose(x, y, half12) ==
       rhs == DAdd(Scaled(y, F), IF half12 THEN <<5>> \o Zeros(F + 2) ELSE <<0>>)
   IN DCmp(lhs, rhs) <= 0
 IntegerValued(v) == v.b = <<>>
-(* integer-valued once rounded to 12 decimals: |frac| < 5e-13 or > 1 - 5e-13 *)
+(* possibly integer-valued once rounded to 12 decimals: |frac| <= 5e-13 or >= 1 - 5e-13 (ties included: *)
+(* which way a tie goes depends on the last bit of the double)                                         *)
 IntegerValued12(v) ==
-  LET f == v.b \o Zeros(13 - Len(v.b))
-      head == SubSeq(f, 1, 13)
-  IN \/ DCmp(StripLead(head), <<5>>) < 0
-     \/ DCmp(StripLead(head), <<9,9,9,9,9,9,9,9,9,9,9,9,5>>) > 0
-     \/ v.b = <<>>
+  LET head == StripLead(SubSeq(v.b \o Zeros(13 - Len(v.b)), 1, 13))
+  IN \/ v.b = <<>>
+     \/ DCmp(head, <<5>>) <= 0
+     \/ DCmp(head, <<9,9,9,9,9,9,9,9,9,9,9,9,5>>) >= 0
 TwoTo53 == <<9,0,0,7,1,9,9,2,5,4,7,4,0,9,9,2>>
 
 (* ======================= 2. text ======================================= *)
